@@ -349,8 +349,23 @@ def run_matrix_text(rng, obs):
         A = [[coef(rng) for _ in range(n)] for _ in range(ne)]; b = [rng.choice([0.0, 1.0, -2.5]) for _ in range(ne)]
         G = [[coef(rng) for _ in range(n)] for _ in range(ni)]; h = [rng.choice([0.0, 3.0, -1.0]) for _ in range(ni)]
         variables, names = names_for(rng, n)
-        text = linear_symbolic(A or None, b or None, G or None, h or None, variables=variables)
-        obs.desc = {'what': 'linear_symbolic', 'A': A, 'b': b, 'G': G, 'h': h, 'variables': names}
+        # the matrices in the layouts the documentation shows or accepts: nested lists, arrays, a single row given flat, the right-hand sides
+        # wrapped once more ([[...]])
+        def lay_m(M):
+            if not M: return None, 'none'
+            k = rng.choice(['nested', 'nested', 'array', 'flat', 'flat_array']) if len(M) == 1 else rng.choice(['nested', 'nested', 'array'])
+            if k == 'nested': return [list(r) for r in M], k
+            if k == 'array': return np.array(M, dtype=float), k
+            if k == 'flat': return list(M[0]), k
+            return np.array(M[0], dtype=float), k
+        def lay_v(v):
+            if not v: return None, 'none'
+            k = rng.choice(['list', 'list', 'array', 'wrapped'])
+            return (list(v), k) if k == 'list' else ((np.array(v, dtype=float), k) if k == 'array' else ([list(v)], k))
+        (Ai, ka), (bi, kb), (Gi, kg), (hi, kh) = lay_m(A), lay_v(b), lay_m(G), lay_v(h)
+        if isinstance(variables, list) and ('flat' in ka or 'flat' in kg): pass
+        text = linear_symbolic(Ai, bi, Gi, hi, variables=variables)
+        obs.desc = {'what': 'linear_symbolic', 'A': A, 'b': b, 'G': G, 'h': h, 'variables': names, 'layouts': [ka, kb, kg, kh]}
         bad = []
         rows = [(a, '=', bi) for a, bi in zip(A, b)]
         both = set()
